@@ -5,6 +5,7 @@ CONSTANTS
   EpochFmt = TRUE
   KeepLB = FALSE
   BestTrain = FALSE
+  ModelKind = "wrapper"
   Params <- FsP1
   MaxE = 4
   MaxCrash = 1
